@@ -1,4 +1,4 @@
-import LunarVerif.Proofs.C05Wit
+import LunarVerif.Proofs.C05Perm
 /-!
 # C05 — every configuration the loader accepts runs safely on all traffic
 
@@ -47,6 +47,26 @@ theorem dfs_sound_nodup (g : DirGraph) (h : noCycleAnywhere g = true) (k : Strin
     (t :: p).Nodup ∧ p.length ≤ g.nodes.length :=
   ⟨path_nodup g _ p t hp (dfs_sound g h k n hn e he t ht),
    path_length_le g _ p t hp (dfs_sound g h k n hn e he t ht)⟩
+
+/-- **accepted_acyclic.**  A direction the loader validated contains no processor cycle at all — `IsPath` only
+    asks for edge MEMBERSHIP, so this holds regardless of the order in which connections were written. -/
+theorem accepted_acyclic (d : Dir) (g : DirGraph) (hv : validateDirection d g = .ok ()) (x : String)
+    (q : List String) : ¬ IsPath g (x :: q ++ [x]) :=
+  validated_acyclic hv x q
+
+/-- **verdict_order_invariant.**  Reordering the connections of every processor (`σ n` a permutation of the
+    edge list of node `n`) does not change the verdict of `validateDirection` (root, unconnected processors,
+    cycle check). -/
+theorem verdict_order_invariant (σ : Node → List Edge) (hσ : ∀ n, (σ n).Perm n.edges) (d : Dir) (g : DirGraph) :
+    validateDirection d (reEdge σ g) = validateDirection d g :=
+  validateDirection_reEdge σ hσ d g
+
+/-- non-vacuity / regression for the seeded change C05-s1: the exit `A -b-> stream end` written BEFORE the edge
+    that closes the cycle `A → B → A` does not hide the cycle; nor does any other order (reversal shown). -/
+example : noCycleAnywhere ⟨some "A", [⟨"A", [⟨"b", .stream "globalStream" "end"⟩, ⟨"a", .node "B"⟩]⟩,
+    ⟨"B", [⟨"a", .node "A"⟩]⟩]⟩ = false := by decide
+example : noCycleAnywhere (reEdge (fun n => n.edges.reverse) ⟨some "A",
+    [⟨"A", [⟨"b", .stream "globalStream" "end"⟩, ⟨"a", .node "B"⟩]⟩, ⟨"B", [⟨"a", .node "A"⟩]⟩]⟩) = false := by decide
 
 /-- non-vacuity: a diamond `R → {A, B} → C` passes the check (paths are cloned, `C` is visited twice). -/
 example : noCycleAnywhere ⟨some "R", [⟨"R", [⟨"a", .node "A"⟩, ⟨"a", .node "B"⟩]⟩, ⟨"A", [⟨"", .node "C"⟩]⟩,
